@@ -255,6 +255,9 @@ func CheckFields(input PDU) error { // nolint: gocyclo
 
 	switch input.Version() {
 	case RoomVersionPseudoIDs:
+		if err := checkIDLength(string(input.SenderID()), "user"); err != nil {
+			return err
+		}
 	default:
 		if err := checkID(string(input.SenderID()), "user", '@'); err != nil {
 			return err
